@@ -192,6 +192,7 @@ class Exec:
             try:
                 p.ret = s.call(fname, args, mem, 0)
             except _Infeasible:
+                for alt in p.pending: stack.append(alt)
                 continue
             for alt in p.pending: stack.append(alt)
             s.stats['paths'] += 1; s.stats['steps'] += s.nsteps
@@ -463,6 +464,9 @@ class Exec:
         if op in ('bitcast', 'addrspacecast'):
             r1, r2 = resolve(I.ty, m), resolve(I.to, m)
             if isinstance(r1, PtrT) and isinstance(r2, PtrT): return a
+            if isinstance(r1, FltT) and isinstance(r2, IntT) and not isinstance(a, tuple):
+                # only the sign bit of the pattern is meaningful in the real model (signbit idiom); a real zero counts as +0
+                return z3.If(a < 0, z3.BitVecVal(1 << (r2.n - 1), r2.n), z3.BitVecVal(0, r2.n))
             raise Unsupported('bitcast %r -> %r' % (r1, r2))
         if op in ('fpext', 'fptrunc'): return a    # real semantics: no rounding
         if op in ('sitofp', 'uitofp'):
@@ -541,6 +545,8 @@ class Exec:
         return h(s, args, mem)
 
 class _Infeasible(Exception): pass
+class Cut(_Infeasible):
+    """raised by a harness stub to end a path deliberately (bounded exploration); alternatives still explored"""
 
 # ---------------------------------------------------------------- libm over the reals
 def _sqrt(s, a, mem):
